@@ -701,6 +701,68 @@ for name, sig_, want in CALLBACKS:
         die("CfiStackWalker::%s: body changed (the real-walker model real_ops / real_callee / mem_read of C06/Model.v was written for `%s`): %s"
             % (name, want, nows(impl[b_ + 1:e_])[:300]))
 
+# ----------------------------------------------------------------------------- 32-bit ARM / MIPS contexts (round 5, second pass)
+# size_of::<Register>() of the contexts CfiStackWalker is instantiated with, Mips32Context (the u32 view of the one
+# CONTEXT_MIPS: callee values are `as u32`, written values widened), the flag that selects it, arm's alias-aware
+# register_is_valid
+ctxrs = open(os.path.join(repo, "minidump/src/context.rs")).read()
+mipsrs = open(os.path.join(repo, "minidump-unwind/src/mips.rs")).read()
+
+
+def impl_block(text, head, where):
+    i = text.find(head)
+    if i < 0:
+        die("%s: `%s` not found" % (where, head))
+    j = text.index("\n}\n", i)
+    return text[i:j]
+
+
+def reg_bytes(block, where):
+    m = re.search(r"\n    type Register = u(8|16|32|64|128);", block)
+    if not m:
+        die("%s: `type Register = uN;` not found" % where)
+    return int(m.group(1)) // 8
+
+
+arm_impl = impl_block(ctxrs, "impl CpuContext for md::CONTEXT_ARM {", "context.rs")
+mips_impl = impl_block(ctxrs, "impl CpuContext for md::CONTEXT_MIPS {", "context.rs")
+m32_impl = impl_block(mipsrs, "impl CpuContext for Mips32Context {", "mips.rs")
+arm_reg_bytes, mips64_reg_bytes, mips32_reg_bytes = reg_bytes(arm_impl, "CONTEXT_ARM"), reg_bytes(mips_impl, "CONTEXT_MIPS"), reg_bytes(m32_impl, "Mips32Context")
+fns = re.findall(r"\n    fn (\w+)", mips_impl)
+if fns != ["get_register_always", "set_register", "stack_pointer_register_name", "instruction_pointer_register_name"]:
+    die("CONTEXT_MIPS: CpuContext methods are now %s (memoize_register / register_is_valid are assumed to be the trait defaults)" % fns)
+want32 = ("typeRegister=u32;constREGISTERS:&'static[&'staticstr]=<MipsContextasCpuContext>::REGISTERS;"
+          "fnget_register_always(&self,reg:&str)->Self::Register{self.0.get_register_always(reg)asu32}"
+          "fnset_register(&mutself,reg:&str,val:Self::Register)->Option<()>{self.0.set_register(reg,val.into())}"
+          "fnstack_pointer_register_name(&self)->&'staticstr{self.0.stack_pointer_register_name()}"
+          "fninstruction_pointer_register_name(&self)->&'staticstr{self.0.instruction_pointer_register_name()}")
+got32 = nows(m32_impl[m32_impl.index("{") + 1:])
+if got32 != want32:
+    die("mips.rs: impl CpuContext for Mips32Context changed (the model truncates callee values to 32 bits and keeps the 64-bit slots): " + got32[:400])
+if nows("if ContextFlagsCpu::from_flags(ctx.context_flags).contains(ContextFlagsCpu::CONTEXT_MIPS64) { Err(ctx) } else { Ok(Self(ctx)) }") not in nows(mipsrs):
+    die("mips.rs: TryFrom<MipsContext> for Mips32Context no longer selects the 32-bit view by the CONTEXT_MIPS64 flag")
+if nows("match &ctx32 { Ok(mips32) => frame = get_caller_by_cfi(mips32, args).await, Err(mips64) => frame = get_caller_by_cfi(mips64, args).await, }") not in nows(mipsrs):
+    die("mips.rs get_caller_frame: the CFI dispatch on Mips32Context / MipsContext changed")
+want_valid = ("ifletMinidumpContextValidity::Some(refwhich)=valid{matchreg{"
+              "\"r11\"|\"fp\"=>which.contains(\"r11\")||which.contains(\"fp\"),"
+              "\"r13\"|\"sp\"=>which.contains(\"r13\")||which.contains(\"sp\"),"
+              "\"r14\"|\"lr\"=>which.contains(\"r14\")||which.contains(\"lr\"),"
+              "\"r15\"|\"pc\"=>which.contains(\"r15\")||which.contains(\"pc\"),"
+              "_=>which.contains(reg),}}else{self.memoize_register(reg).is_some()}")
+k_ = arm_impl.find("\n    fn register_is_valid(&self, reg: &str, valid: &MinidumpContextValidity) -> bool {")
+if k_ < 0:
+    die("CONTEXT_ARM: register_is_valid override not found")
+b_ = arm_impl.index("{", k_)
+e_ = arm_impl.index("\n    }", b_)
+if nows(arm_impl[b_ + 1:e_]) != want_valid:
+    die("CONTEXT_ARM::register_is_valid changed (real_callee resolves a name through memoize and tests the canonical name): " + nows(arm_impl[b_ + 1:e_])[:400])
+want_default_valid = "ifletMinidumpContextValidity::Some(refwhich)=*valid{which.contains(reg)}else{self.memoize_register(reg).is_some()}"
+k_ = ctxrs.find("\n    fn register_is_valid(&self, reg: &str, valid: &MinidumpContextValidity) -> bool {")
+b_ = ctxrs.index("{", k_)
+e_ = ctxrs.index("\n    }", b_)
+if k_ < 0 or nows(ctxrs[b_ + 1:e_]) != want_default_valid:
+    die("CpuContext::register_is_valid (trait default) changed")
+
 # ----------------------------------------------------------------------------- output
 def lst(items, indent="  "):
     if not items:
@@ -781,11 +843,20 @@ Definition cfi_deltas_sorted : bool := %s.
 (* ---- minidump-unwind/src/lib.rs: the FrameWalker callbacks of CfiStackWalker, pinned to the text the real-walker
         model (real_ops, real_callee, mem_read of C06/Model.v) was written for ---- *)
 Definition cfi_walker_callbacks : nat := %d.
+
+(* ---- 32-bit ARM / MIPS contexts: size_of::<Register>() of the CpuContext CfiStackWalker is instantiated with
+        (context.rs CONTEXT_ARM / CONTEXT_MIPS, mips.rs Mips32Context = the u32 view selected when the CONTEXT_MIPS64
+        flag is absent: get_register_always is `.. as u32`, set_register widens) ---- *)
+Definition cfi_arm_reg_bytes : Z := %d.
+Definition cfi_mips32_reg_bytes : Z := %d.
+Definition cfi_mips64_reg_bytes : Z := %d.
+Definition cfi_mips32_callee_bits : Z := %d.
 """ % (
     lst(["(%s,\n    %s)" % (coq_bytes(t), lst(ss, "    ")) for t, ss in arms]),
     lst(chain), final_len, ord(label_suffix), label_suffix, lst(classify),
     " < ".join(v.split("(")[0] for v in variants), lst(steps),
-    loop_cfa, lst(on_ok), lst(on_reject or []), lst(on_fail), take_cmp, deltas_sorted, len(CALLBACKS))
+    loop_cfa, lst(on_ok), lst(on_reject or []), lst(on_fail), take_cmp, deltas_sorted, len(CALLBACKS),
+    arm_reg_bytes, mips32_reg_bytes, mips64_reg_bytes, 8 * mips32_reg_bytes)
 path = os.path.join(outdir, "CfiOps.v")
 os.makedirs(outdir, exist_ok=True)
 try:
